@@ -286,7 +286,8 @@ def coq_expr(case, obs):
         B = falib.coq_enfa(case["fb"], si)
         R = falib.coq_enfa(obs["out"], si)
         R2 = falib.coq_enfa(obs["out2"], si)
-        return "(enfa_equiv %s %s FUEL, judge %s %s, judge %s %s, dfa_b %s && is_reduced_b %s FUEL, dfa_b %s && is_reduced_b %s FUEL)" % (A, B, A, R, B, R2, R, R, R2, R2)
+        return ("(enfa_equiv %s %s FUEL, judge %s %s, judge %s %s, dfa_b %s && is_reduced_b %s FUEL, dfa_b %s && is_reduced_b %s FUEL, trim_b %s && trim_b %s)"
+                % (A, B, A, R, B, R2, R, R, R2, R2, R, R2))
     if op in ("is_equivalent_to", "eq"):
         B = falib.coq_enfa(case["fb"], si)
         return "(enfa_equiv %s %s FUEL)" % (A, B)
@@ -382,9 +383,11 @@ def judge_case(ctx, case, obs, mv):
                                                   "hashseed": obs.get("_hs")})
         return
     if op == "minimize_pair":
-        eq, j1, j2, red1, red2 = mv
+        eq, j1, j2, red1, red2, trim = mv
         if eq is None or j1 == "VFuel" or j2 == "VFuel":
             return
+        if eq[1] and j1 == "VEq" and j2 == "VEq" and red1 and red2 and trim:
+            ctx.dist["minimize_pair:isomorphism forced by C02_minimal_unique"] += 1
         eq = eq[1]
         if j1 != "VEq" or j2 != "VEq":
             ctx.fail("minimize-language", case, {"impl_out": obs["out"], "impl_out2": obs["out2"], "verdicts": [str(j1), str(j2)]})
